@@ -741,8 +741,10 @@ def main(argv=None):
         "wall_s": round(wall, 2),
         "violations": len(violations),
     }
-    os.makedirs(os.path.join(VERIF, "evidence"), exist_ok=True)
-    json.dump(ev, open(os.path.join(VERIF, "evidence", pid + ".json"), "w"), indent=1)
+    # seeded-change trials (tools/) divert the evidence so that the committed files always describe /repo itself
+    evdir = os.environ.get("VERIF_EVIDENCE_DIR") or os.path.join(VERIF, "evidence")
+    os.makedirs(evdir, exist_ok=True)
+    json.dump(ev, open(os.path.join(evdir, pid + ".json"), "w"), indent=1)
 
     print(
         "%s %s: %d obligations, %d discharged, %d sat, %d unknown, %d errors; witnesses %d/%d, mutants %d/%d; conformance %d values, %d mismatches; solver %.1fs wall %.1fs"
